@@ -898,6 +898,19 @@ func (e *Engine) handleOverflow(ctx context.Context, p peer.ID, overflow, wants 
 		return wants
 	}
 
+	// Wants of this same message that were admitted before the ledger filled
+	// up are candidates for eviction too. Once evicted they must not get a
+	// task anymore.
+	evicted := cid.NewSet()
+	dropEvicted := func(wants []bsmsg.Entry) []bsmsg.Entry {
+		if evicted.Len() == 0 {
+			return wants
+		}
+		return slices.DeleteFunc(wants, func(entry bsmsg.Entry) bool {
+			return evicted.Has(entry.Cid)
+		})
+	}
+
 	// Remove entries for blocks that are not present to make room for overflow.
 	var removed []int
 	for i, w := range existingWants {
@@ -906,6 +919,7 @@ func (e *Engine) handleOverflow(ctx context.Context, p peer.ID, overflow, wants 
 			if e.peerLedger.CancelWant(p, w.Cid) {
 				e.peerRequestQueue.Remove(w.Cid, p)
 			}
+			evicted.Add(w.Cid)
 			removed = append(removed, i)
 			// Pop hoghest priority overflow.
 			firstOver := overflow[0]
@@ -914,7 +928,7 @@ func (e *Engine) handleOverflow(ctx context.Context, p peer.ID, overflow, wants 
 			e.peerLedger.Wants(p, firstOver.Entry)
 			wants = append(wants, firstOver)
 			if len(overflow) == 0 {
-				return wants
+				return dropEvicted(wants)
 			}
 		}
 	}
@@ -938,11 +952,12 @@ func (e *Engine) handleOverflow(ctx context.Context, p peer.ID, overflow, wants 
 		if e.peerLedger.CancelWant(p, entCid) {
 			e.peerRequestQueue.Remove(entCid, p)
 		}
+		evicted.Add(entCid)
 		e.peerLedger.Wants(p, overflowEnt.Entry)
 		wants = append(wants, overflowEnt)
 	}
 
-	return wants
+	return dropEvicted(wants)
 }
 
 // Split the want, cancel, and deny entries.
